@@ -366,8 +366,8 @@ def authMethod (sc : SigScheme) (sid : Bytes) (s : St) (env : Env) (user service
     if env.kexCtx = false then (s, .rejectTwice [cGss] (some user))
     else if env.micOk = false then (s, .resultDie [cGss] (some user) AUTH_FAILED .gss)
     else
-      -- DEFECT (C14): the result of check_auth_gssapi_keyex is ignored
-      (s, .result [cGss, Call.mk (.gssKeyex user) (some env.rGssKeyex)] (some user) AUTH_SUCCESSFUL)
+      -- the MIC was good: the application decides (check_auth_gssapi_keyex)
+      (s, .result [cGss, Call.mk (.gssKeyex user) (some env.rGssKeyex)] (some user) env.rGssKeyex)
   else
     (s, .result [cGss, Call.mk (.authNone user) (some env.rNone)] (some user) env.rNone)
 
@@ -406,9 +406,9 @@ def gssToken (s : St) (env : Env) : St × Act :=
 def gssMic (s : St) (env : Env) : St × Act :=
   if env.micOk = false then ({ s with gssSub := false }, .resultDie [] s.authUser AUTH_FAILED .gss)
   else
-    -- DEFECT (C14): the result of check_auth_gssapi_with_mic is ignored
+    -- the MIC was good: the application decides (check_auth_gssapi_with_mic)
     ({ s with gssSub := false },
-     .result [Call.mk (.gssMic s.authUser) (some env.rGssMic)] s.authUser AUTH_SUCCESSFUL)
+     .result [Call.mk (.gssMic s.authUser) (some env.rGssMic)] s.authUser env.rGssMic)
 
 /-! ## the dispatch part of `Transport.run` (server mode, after the initial key exchange) -/
 
